@@ -55,9 +55,9 @@ package agent
 
 //@ func (a *Agent) TaskDispatch(RequestID uint32, CommandID uint32, Parser *parser.Parser, teamserver TeamServer)
 //@   requires wf: wfAgent(a) && Parser != nil && teamserver != nil && logr.LogrInstance != nil
+//@   requires unlocked: !held(a.PortFwdsMtx) && !held(a.SocksCliMtx) && !held(a.SocksSvrMtx)
 //@   modifies *
 //@   guard accepted: accepted(a, teamserver, RequestID, CommandID)
-//@   ensures wf: wfAgent(a)
 
 // ---------------------------------------------------------------------------
 // Representation invariant of a registered session: the AES key and IV have the
